@@ -285,3 +285,61 @@ func runR0120(c *Ctx) {
 	}
 	_ = n
 }
+
+func init() {
+	register(&Rule{
+		ID: "R15.7", Props: []string{"C15"}, Engine: "guard (SSA edge facts)",
+		Text:  "a completed read reports the task's error: in casBufferWithBackgroundTask.ReadAt the base's own error is returned only where it is known not to be io.EOF (a short read that reaches the end of the object is a completed read) or where the task's error was found nil; everywhere else the task's error is what is returned",
+		Floor: 2, MustExist: true, Run: runR157,
+	})
+}
+
+func runR157(c *Ctx) {
+	fn := c.Method(bufferRel, "casBufferWithBackgroundTask", "ReadAt")
+	if fn == nil {
+		c.Broken("casBufferWithBackgroundTask.ReadAt not found")
+		return
+	}
+	name := FuncName(fn)
+	isTaskErr := func(v ssa.Value) bool {
+		f, _ := loadedField(stripConv(v))
+		return f != nil && f.Name() == "err" && isErrorType(f.Type())
+	}
+	for _, r := range returnsOf(fn) {
+		if len(r.Results) != 2 {
+			continue
+		}
+		ev := returnedValue(r, 1)
+		if isTaskErr(ev) || isNilConst(ev) {
+			c.Pass(name, "task-error-reported", c.Pos(r.Pos()), "returns the task's error")
+			continue
+		}
+		ok := false
+		edgeFacts(r.Block(), func(cond ssa.Value, val bool) bool {
+			c0, v := cond, val
+			for {
+				if u, isU := c0.(*ssa.UnOp); isU && u.Op == token.NOT {
+					c0, v = u.X, !v
+					continue
+				}
+				break
+			}
+			// the task's error is nil here
+			if x, nilWhenTrue, isNT := nilTest(c0); isNT && isTaskErr(x) && nilWhenTrue == v {
+				ok = true
+				return false
+			}
+			// the returned error is not io.EOF here
+			if bo, isB := c0.(*ssa.BinOp); isB && (bo.Op == token.EQL || bo.Op == token.NEQ) {
+				for _, pair := range [][2]ssa.Value{{bo.X, bo.Y}, {bo.Y, bo.X}} {
+					if stripConv(pair[0]) == stripConv(ev) && isIOEOF(pair[1]) && (bo.Op == token.NEQ) == v {
+						ok = true
+						return false
+					}
+				}
+			}
+			return true
+		})
+		c.Check(ok, name, "task-error-reported", c.Pos(r.Pos()), "the base's error is returned only where it is not io.EOF or the task succeeded", "ReadAt returns the underlying buffer's error without looking at the task's: when that error is io.EOF – a short read that reached the end of the object, i.e. a completed read – a failed task (the refresh copy that could not be finalised, the replication that failed) goes unreported")
+	}
+}
